@@ -298,12 +298,7 @@ func c01Tx(r *core.Run, u *undoWorld, prop string) {
 			if !ok {
 				return true
 			}
-			if lit, ok := ast.Unparen(ds.Call.Fun).(*ast.FuncLit); ok {
-				sub := sp.AnalyzeLitSeed(fn.Pkg, lit, func(s *flow.State) {
-					if errRes != nil {
-						s.SetNil(errRes, false)
-					}
-				})
+			if sub := deferredWhenErr(sp, fn, ds, errRes); sub != nil && sub.Sum != nil {
 				if sub.Sum.MustAll["rollback"] {
 					deferRollbackOnErr = true
 				}
